@@ -71,12 +71,12 @@ TemplatesA(s) ==
           ELSE {})
 
 Canon == << <<E(1, 1, 1), E(2, 1, 1), E(3, 1, 1), E(4, 1, 1)>>,      \* the EL7031 of ethercat.rst
-            <<E(1, 1, 1), E(2, 1, 1), E(3, 0, 1), E(4, 0, 1)>>,      \* sizes left to the PDO assignment
             <<>>,                                                    \* no category 41 at all
+            <<E(1, 1, 1), E(2, 1, 1), E(3, 0, 1), E(4, 0, 1)>>,      \* sizes left to the PDO assignment
             <<E(4, 1, 1)>>,                                          \* a simple input terminal
             <<E(3, 1, 1), E(4, 1, 1)>>,
             <<E(1, 1, 1), E(2, 1, 1), E(0, 0, 0), E(4, 1, 1)>> >>
-CanonHas41(k) == k # 3
+CanonHas41(k) == k # 2
 Priors == (IF "fresh" \in PriorSel THEN {Fresh} ELSE {})
           \cup (IF "stale1" \in PriorSel THEN {Stale(1)} ELSE {})
           \cup (IF "stale8" \in PriorSel THEN {Stale(8)} ELSE {})
